@@ -3,7 +3,8 @@ EXTENDS LossFilter, TraceIO
 TraceInit == LInit(0) /\ TraceInitL
 TReset == IsEv("reset") /\ Consume /\ chance' = Ev.chance /\ n' = 0 /\ d' = 0
 TArr == IsEv("arr") /\ Consume /\ Ev.intact /\ Arrive(Ev.id, Ev.out)
+TBatch == IsEv("batch") /\ Consume /\ Ev.intact /\ Reentrant(Ev.arrs, Ev.out)
 TEnd == IsEv("end") /\ Consume /\ WithinSeven /\ UNCHANGED lvars
-TraceNext == TReset \/ TArr \/ TEnd
+TraceNext == TReset \/ TArr \/ TBatch \/ TEnd
 TraceSpec == TraceInit /\ [][TraceNext]_<<lvars, l>>
 =============================================================================
